@@ -3,7 +3,7 @@
    `StructMessage::new` of contract/communication/struct_msg.rs), translated from sylvia-derive's source on every run
    (GenImpAttr.msgnew_fns, Facts/AttrRefine.v). Statements only. *)
 From Coq Require Import String List Bool.
-Require Import SV.Model.Imp SV.Model.GenImpAttr SV.Facts.ImpFacts SV.Facts.MacroRefine SV.Facts.AttrRefine SV.Facts.ParseRefine SV.Facts.ParseFacts.
+Require Import SV.Model.Imp SV.Model.GenImpAttr SV.Facts.ImpFacts SV.Facts.MacroRefine SV.Facts.AttrRefine.
 Import ListNotations.
 Open Scope string_scope.
 Open Scope list_scope.
@@ -50,14 +50,6 @@ Theorem c17_translated_kept_lines : forall ty (l : list fwd) k t,
   In (k, t) (filter (to_kind ty) l) <-> In (k, t) l /\ k = ty.
 Proof. exact kept_lines_are_those_of_the_kind. Qed.
 
-(* ... and the list the constructors filter is the one the TRANSLATED attribute parser collects (parser/attributes/mod.rs,
-   Facts/ParseRefine.v): for every list of attributes, the well-formed `sv::msg_attr(..)` ones, in order of appearance, and
-   nothing else *)
-Theorem c17_translated_forwarded_lines_are_collected_in_order : forall d (l : list ain),
-  calls PARSE (S (S (S d))) "ParsedSylviaAttributes::new" [VArr (map ain_v l)] (CVal (st_v (finish (fold_left step l init)))) /\
-  s_mattrs (finish (fold_left step l init)) = flat_map (is_list_ok KMsgAttrs) l.
-Proof. intros d l. split; [apply translated_parsed_attributes | apply (parsed_repeatable_attributes l)]. Qed.
-
 (* non-vacuity: the constructors were translated, and a list with lines of three kinds is filtered to the asked one in order *)
 Example c17_translated_example :
   length msgnew_fns = 3 /\
@@ -71,4 +63,3 @@ Print Assumptions c17_translated_interface_enum_message.
 Print Assumptions c17_translated_struct_message.
 Print Assumptions c17_translated_struct_message_absent.
 Print Assumptions c17_translated_kept_lines.
-Print Assumptions c17_translated_forwarded_lines_are_collected_in_order.
